@@ -322,9 +322,9 @@ def case_digest(case: Any) -> str:
 class Check(PropertyCheck):
     id = 'C18'
     props_module = 'Props.C18'
-    models = {'det': 'XDeterminism.v'}
+    models = {'det': 'XDeterminism.v', 'det_ir': 'XDiscoveryIR.v'}
     needs_gen = True
-    gen_modules = ['gen_c18']
+    gen_modules = ['gen_c18', 'gen_c18_code']
     rule = ('CLI differential: generated projects (1-3 roots, packages with sub-packages, cross-module inheritance, same-named '
             'members, names differing only in case, duplicate definitions, private/hidden objects, attrs/zope/deprecate '
             'extensions, 4 docformats, 3 themes, optional custom template dir, with and without --project-name), each built '
@@ -337,6 +337,12 @@ class Check(PropertyCheck):
         'Coq 8.16.1 kernel; vm_compute for the table checks and the _refuted witnesses; no native_compute; no axioms',
         'translator harness/gen/gen_c18.py (fail-closed; prints every set / root_names / directory-listing occurrence of '
         'pydoctor/**.py with its consuming context, the sort-key tuples, enum and suffix tables, the page counters)',
+        'translator harness/gen/gen_c18_code.py (fail-closed; bodies of System.addPackage / addModuleFromPath / '
+        '_addUnprocessedModule / _handleDuplicateModule -> Gen/DiscoveryCode.v in the two statement languages of '
+        'Model/DiscoveryIR.v, whose interpreter is the stated meaning of the Python constructs and of the primitives: '
+        'analyzeModule as an event, iterdir as the listing oracle, sorted() of sibling paths as the stable sort by name, '
+        'introspect_c_modules off / no C modules, _remove as a prefix filter of allobjects, the work list over module '
+        'contents as one pass over the modules at or below the replaced one, contents not in the modelled state)',
         'extraction ExtrOcamlBasic only + coq/ocaml/driver.ml',
         'harness/c18.py, harness/impl/c18_cli.py, c18_wrapper.py (listing shuffle), c18_tie.py',
         'modelled not verified: twisted flattening, lunr, json.dumps, zlib, docutils and CPython dict order are deterministic '
@@ -350,7 +356,11 @@ class Check(PropertyCheck):
                    'called like a summary page, see C02)',
                    'two runs = two processes (the class-level id counters are never reset inside one process)']
     manifest = {
-        'text': ('Theorems over Model/Determinism.v for all projects, listing orders, set iteration orders and previous output '
+        'text': ('The bodies of System.addPackage / addModuleFromPath / _addUnprocessedModule / _handleDuplicateModule are translated '
+                 'from the current model.py on every run and C18_code_add_package_is_model / C18_code_add_module_from_path_is_model / '
+                 'C18_code_add_roots_is_model / C18_code_registry_is_model prove that interpreting them is the model below '
+                 '(C18_code_fs_order_free restates the result on the translated code). '
+                 'Theorems over Model/Determinism.v for all projects, listing orders, set iteration orders and previous output '
                  'directories: module creation order is independent of directory listing order (C18_fs_order_free), sorted() '
                  'over a set with pydoctor\'s keys is a function of the set and every sort is stable (C18_sort_keys_total), every '
                  'use of System.root_names, the guessed project name and the root-kind list are independent of set order '
@@ -465,11 +475,14 @@ class Check(PropertyCheck):
         return nodes
 
     # -------------------------------------------------------------------------------- model helpers
-    def model_fs(self, roots_list: List[Any]) -> List[Any]:
-        outs = self.model('det', [enc([0, r]) for r in roots_list])
+    def model_fs(self, roots_list: List[Any], which: str = 'det') -> List[Any]:
+        outs = self.model(which, [enc([0, r]) for r in roots_list])
         res = []
         for o in outs:
             d = dec(o)
+            if len(d) == 2 and d[1] == -3:
+                res.append({'events': [], 'unproc': [], 'roots': [], 'rootkinds': [], 'ir_failed': True})
+                continue
             evs = [[-1] if e == [-1] else ([-2] if e == [-2] else [[txt(p) for p in e[0]], txt(e[1]), e[2]]) for e in d[0]]
             res.append({'events': evs, 'unproc': [[[txt(p) for p in m[0]], m[1]] for m in d[1]],
                         'roots': [txt(t) for t in d[2]], 'rootkinds': d[3]})
@@ -510,6 +523,13 @@ class Check(PropertyCheck):
         impl = lib.run_impl_worker('c18_tie.py', cases, jobs=16)
         mod = self.model_fs([c['roots'] for c in cases])
         out: List[Violation] = []
+        # third leg: the interpretation of the code TRANSLATED from model.py (Gen/DiscoveryCode.v)
+        mod_ir = self.model_fs([c['roots'] for c in cases], which='det_ir')
+        for c, r, mi in zip(cases, impl, mod_ir):
+            if r != mi and len([v for v in out if v.kind == 'correspondence']) < 3:
+                out.append(Violation('correspondence', 'the code translated from model.py (Gen/DiscoveryCode.v, interpreted by '
+                                     'Model.DiscoveryIR) and System.addPackage / _addUnprocessedModule disagree: the translator or the '
+                                     'statement language misrepresents the source', case=c, expected=mi, observed=r))
         by_set: Dict[str, Any] = {}
         for c, r, m in zip(cases, impl, mod):
             self.evaluations += 1
